@@ -171,11 +171,13 @@ def interrupt_case(item):
         code, err = cl.run_doit(d, sc, 'intr', interrupt=sc['interrupt'])
         ev1 = [e for e in cl.read_events(d) if e.get('run') == 'intr']
         ti = sc['interrupt'].split(':')[0]
-        fired = any(e.get('ev') == 'start' and e['t'] == ti for e in ev1)
+        in_teardown = ':teardown:' in sc['interrupt']
+        fired = any(e.get('ev') == ('teardown' if in_teardown else 'start') and e['t'] == ti for e in ev1)
         st.case(case, nontrivial=fired)
         st.count('backend:' + sc['backend'])
         st.count('runner:' + sc['runner'])
-        st.count('interrupt:' + sc['interrupt'].split(':')[1])
+        st.count('interrupt:' + sc['interrupt'].split(':')[-1])
+        st.count('interrupt-in:' + ('teardown' if in_teardown else 'action'))
         st.count('fired' if fired else 'not-fired')
         st.count('intr-exit:%s' % code)
         if not fired:
@@ -195,7 +197,9 @@ def interrupt_case(item):
                 plan.append([names.index(e['t']), 'ok', it.rid(s) if isinstance(s, dict) else 0])
             elif e.get('ev') == 'rep' and e['what'] == 'fail':
                 plan.append([names.index(e['t']), 'fail'])
-        plan.append([names.index(ti), 'interrupt'])
+        if not in_teardown:
+            plan.append([names.index(ti), 'interrupt'])
+        # (an interruption inside a teardown action strikes in finish(), after the flush: the whole plan is persisted)
         ans = common.drv_batch([{'model': 'crash', 'op': 'afterRun', 'continue': True, 'tasks': list(range(len(names))),
                                  'old': old_pairs, 'plan': plan}])[0]
         want = {names[t]: r for t, r in ans['final']}
